@@ -86,6 +86,9 @@ type Op struct {
 	Result     int64
 	Desc       string
 	Offer      *Offer // unbuffered channels: the value a sender holds out (send) / the one taken (recv, select)
+	Handed     bool   // recv / select: Offer was handed to this waiting receiver by a select that chose to send
+	HandedKey  uintptr
+	SendVal    func(i int) any // select: the value of send case i (unbuffered channels only)
 }
 
 // Offer is the value a goroutine blocked in a send on an unbuffered channel holds out to receivers.
@@ -362,9 +365,38 @@ func (s *Sched) selReady(c *SelCase) bool {
 	}
 	m := s.ch(c.Key, c.Len, c.Cap)
 	if c.Send {
+		if c.Cap == 0 {
+			// unbuffered: ready when a receiver is waiting on the channel (or it is closed: the send panics)
+			return m.closed || s.waitingReceiver(c.Key) != nil
+		}
 		return m.closed || m.n < m.cap
 	}
 	return m.n > 0 || m.closed || len(m.offers) > 0
+}
+
+// waitingReceiver returns a goroutine parked in a receive (plain or select) on the unbuffered channel key that
+// has not been handed a value yet; the one with the lowest id (they are parked, so any fixed rule is a legal order).
+//
+//go:norace
+func (s *Sched) waitingReceiver(key uintptr) *G {
+	for _, g := range s.gs {
+		if g == s.cur || g.done || g.op == nil || g.op.Handed {
+			continue
+		}
+		switch g.op.Kind {
+		case KRecv:
+			if g.op.Key == key {
+				return g
+			}
+		case KSelect:
+			for i := range g.op.Cases {
+				if !g.op.Cases[i].Send && g.op.Cases[i].Key == key {
+					return g
+				}
+			}
+		}
+	}
+	return nil
 }
 
 //go:norace
@@ -391,9 +423,9 @@ func (s *Sched) enabled(op *Op) bool {
 			return false
 		}
 		m := s.ch(op.Key, op.Len, op.Cap)
-		return m.n > 0 || m.closed || len(m.offers) > 0
+		return op.Handed || m.n > 0 || m.closed || len(m.offers) > 0
 	case KSelect:
-		if op.HasDefault {
+		if op.HasDefault || op.Handed {
 			return true
 		}
 		for i := range op.Cases {
@@ -621,7 +653,9 @@ func (s *Sched) grant(g *G) {
 		}
 	case KRecv:
 		m := s.ch(op.Key, op.Len, op.Cap)
-		if m.n > 0 {
+		if op.Handed {
+			op.Result = 1
+		} else if m.n > 0 {
 			m.n--
 			op.Result = 1
 		} else if len(m.offers) > 0 {
@@ -637,6 +671,13 @@ func (s *Sched) grant(g *G) {
 		var rb [8]int
 		ready := rb[:0]
 		for i := range op.Cases {
+			if op.Handed {
+				// a sender's select chose this parked receiver: it takes that value
+				if !op.Cases[i].Send && op.Cases[i].Key == op.HandedKey && len(ready) == 0 {
+					ready = append(ready, i)
+				}
+				continue
+			}
 			if s.selReady(&op.Cases[i]) {
 				ready = append(ready, i)
 			}
@@ -662,10 +703,18 @@ func (s *Sched) grant(g *G) {
 		if op.Result >= 0 {
 			c := &op.Cases[op.Result]
 			m := s.ch(c.Key, c.Len, c.Cap)
-			if c.Send {
+			if c.Send && c.Cap == 0 && !m.closed {
+				// hand the value to the waiting receiver
+				if r := s.waitingReceiver(c.Key); r != nil && op.SendVal != nil {
+					r.op.Offer = &Offer{Val: op.SendVal(int(op.Result)), taken: true}
+					r.op.Handed, r.op.HandedKey = true, c.Key
+				}
+			} else if c.Send {
 				if !m.closed {
 					m.n++
 				}
+			} else if op.Handed {
+				// value already in op.Offer
 			} else if m.n > 0 {
 				m.n--
 			} else if len(m.offers) > 0 {
